@@ -13,3 +13,5 @@ Proof. exact kaiser_alpha_values. Qed.
 Theorem C12_window_is_dft_even_kaiser : window_kaiser_ok = true.
 Proof. reflexivity. Qed.
 Print Assumptions C12_alpha_increasing.
+Print Assumptions C12_alpha_range.
+Print Assumptions C12_window_is_dft_even_kaiser.
